@@ -238,13 +238,14 @@ theorem PredOK_maxItems (pr : Printer) (root : J) (ref : Option (List Nat)) (n :
     the elements at hand (true for elements of one scalar kind — strings, ints, floats, booleans —,
     which is what C11's fragment has under a uniqueness predicate) -/
 theorem PredOK_uniqueItems_partial (pr : Printer) (root : J) (ref : Option (List Nat)) (oid : Nat) (xs : List PyVal)
-    (hagree : jsonUnique xs = uniqueLoop xs [] []) : PredOK pr root ref .uniqueItems (.list oid xs) := by
+    (hagree : jsonUnique xs = uniqueLoop xs [] []) (hs : snanInsideL xs = false) :
+    PredOK pr root ref .uniqueItems (.list oid xs) := by
   apply PredOK_of_sem
   intro po hpo ev o'
   simp only [predSchema, Except.ok.injEq] at hpo
   subst hpo
   rw [objEval_one ev root ref o' _ _ _ _ (kw_uniqueItems ev root ref o' oid xs),
-    holds_of_call .uniqueItems (.list oid xs) (uniqueLoop xs [] []) rfl, hagree]
+    holds_of_call .uniqueItems (.list oid xs) (uniqueLoop xs [] []) (by simp [PredK.call, pyIter, hs]), hagree]
 
 
 /-! ### n-tuples: `prefixItems` + `minItems` = `maxItems` = n -/
